@@ -7,10 +7,13 @@ Proof part : Properties/C06.lean — fuel stability + no exhaustion above the tr
 Tie        : K5 on trees biased towards symlink cycles: exact result sequence and exact
              os.scandir call sequence (interleaved), `**`/`***` in every position, x
              {FOLLOW (never on cyclic trees), GLOBSTARLONG, MATCHBASE, DOTGLOB, …}.
+             K6 on the same trees: globmatch/globfilter with REALPATH on every entry (also through
+             links) vs `Match.matchReal`.
 Search     : on the real trace, independent of the model: (a) without FOLLOW/`***` every run on
              a cyclic tree finishes and lists no directory more often than the pattern has
              parts; (b) for patterns `prefix/**[/last]` no listed directory has a symlink at a
-             position behind the prefix; (c) `link/*` does list the link's target.
+             position behind the prefix; (c) `link/*` does list the link's target; (d) REALPATH: for
+             `prefix/**` no accepted path has a symlinked directory behind the prefix.
 """
 from __future__ import annotations
 import os
@@ -89,7 +92,47 @@ def run(ck: Check) -> int:
     stats = {'runs_on_cyclic_trees': 0, 'finished': 0, 'cut_off(FOLLOW/*** on a cycle, not a verdict)': 0,
              'link_position_checks': 0, 'written_link_listings': 0}
 
+    k6 = {'evaluations': 0, 'accepted': 0, 'rejected': 0, 'disagree': []}
+
+    def realpath_side(t, c, res):
+        """K6 + clause (d) for this case"""
+        fl = c.flags | G.REALPATH
+        cands = K.candidates(t, res)
+        try:
+            pe, ee = K.match_expansions(W, U, G, c.pats, fl, None)
+        except Exception:  # noqa: BLE001
+            return
+        rs, bits = K.run_real_match(G, t, cands, c.pats, fl, None, 'globfilter', 'root_dir')
+        m = drv.ask(K.match_line(t, fl, pe, ee, cands))
+        k6['evaluations'] += len(cands)
+        if rs != 'ok' or not m.startswith('ok '):
+            k6['disagree'].append({'stream': 'K6', **c.to_json(G, t), 'code': (rs, bits[:60]), 'model': m[:60]})
+            return
+        k6['accepted'] += bits.count('1')
+        k6['rejected'] += bits.count('0')
+        if m[3:] != bits:
+            d = [(x, a, b) for x, a, b in zip(cands, bits, m[3:]) if a != b][:4]
+            k6['disagree'].append({'stream': 'K6', **c.to_json(G, t), 'path/code/model': d})
+        segs = [s for s in c.pats.split('/') if s]
+        follows = bool(fl & G.FOLLOW and not fl & G.GLOBSTARLONG)
+        if follows or not fl & G.GLOBSTAR or fl & G.MATCHBASE or segs.count('**') != 1 or segs[-1] != '**' or '***' in segs:
+            return
+        pre = segs[:-1]
+        if not all(s not in ('.', '..') and not G.is_magic(s, flags=fl) for s in pre) or fl & G.IGNORECASE:
+            return
+        for x, b in zip(cands, bits):
+            if b != '1' or x.startswith('/') or x.startswith('./'):
+                continue
+            comps = [k for k in x.rstrip('/').split('/') if k]
+            stats['realpath_link_checks'] = stats.get('realpath_link_checks', 0) + 1
+            for j in range(len(pre) + 1, len(comps)):          # the last piece is exempt
+                if os.path.islink(os.path.join(t.root, *comps[:j])):
+                    found.append(Failing(f'globmatch(REALPATH) accepted {x!r} through the symlink {"/".join(comps[:j])!r} at a ** position',
+                                         c.to_json(G, t), False, True, 'wcmatch/_wcmatch.py:100-133'))
+
     def on_case(t, c, st, ev, ms, mev):
+        if st == 'ok' and c.mode == 'root_dir' and drv is not None:
+            realpath_side(t, c, [p for k, p in ev if k == 'y'])
         follows = bool(c.flags & G.FOLLOW and not c.flags & G.GLOBSTARLONG) or \
             (bool(c.flags & G.GLOBSTARLONG) and '***' in c.pats) or \
             bool(c.flags & G.GLOBSTARLONG and c.flags & G.FOLLOW and c.flags & G.MATCHBASE)
@@ -144,6 +187,15 @@ def run(ck: Check) -> int:
                    'position; FOLLOW/`***` on cyclic trees only under a scan budget (common prefix compared)')
         K.k5_loop(sr, drv, G, W, U, R, ntrees, lambda R_, t: _cases(R_, G, t, per), on_case, spec_for=_cyclic_spec)
     ck.stream('K5-glob-events', s_k5)
+
+    def s_k6(sr):
+        sr.note = 'K6: globfilter(REALPATH) on every entry (also through links) and every glob result vs matchReal, same trees'
+        sr.evaluations = k6['evaluations']
+        sr.distinct = k6['evaluations']
+        sr.histogram = {'accepted': k6['accepted'], 'rejected': k6['rejected']}
+        for d in k6['disagree']:
+            sr.disagree(d)
+    ck.stream('K6-matchReal', s_k6)
 
     def s_search(sr):
         sr.note = ('real traces only: termination within the scan budget without FOLLOW/***; listing multiplicity; no '
